@@ -1,6 +1,7 @@
 package main
 
 import (
+	"io"
 	"context"
 	"errors"
 	"fmt"
@@ -266,7 +267,19 @@ func c03Observer(env *c03env, tr *mock.Transport) func(kind int, pos int, f func
 func c03Events(env *c03env, pl netty.Pipeline, ch netty.Channel, tr *mock.Transport, rng *rand.Rand) {
 	size := pl.Size()
 	observe := c03Observer(env, tr)
-	ex := errors.New("nv-exception")
+	// the exception that travels: a plain error, or one of the kinds other parts of the library special-case
+	// (timeout / non-timeout net.Error, bare or wrapped, io.EOF); where it goes does not depend on its kind
+	var ex error = errors.New("nv-exception")
+	switch rng.Intn(6) {
+	case 0:
+		ex = &netErr{msg: "nv-timeout", timeout: true}
+	case 1:
+		ex = fmt.Errorf("wrapped: %w", &netErr{msg: "nv-timeout", timeout: true})
+	case 2:
+		ex = &netErr{msg: "nv-fatal"}
+	case 3:
+		ex = io.EOF
+	}
 	msg := []byte("w")
 	// pipeline.Fire* and Channel.Write/Trigger
 	observe(0, 0, func() { pl.FireChannelActive() })
